@@ -809,11 +809,7 @@ impl BuiltInFunction {
                     args[0].as_list(borrowed_heap)?.clone()
                 };
                 let borrowed_heap = heap.borrow();
-                list.sort_by(|a, b| {
-                    a.compare(b, &borrowed_heap)
-                        .unwrap_or(None)
-                        .unwrap_or(std::cmp::Ordering::Equal)
-                });
+                list.sort_by(|a, b| a.sort_cmp(b, &borrowed_heap));
                 drop(borrowed_heap);
                 Ok(heap.borrow_mut().insert_list(list))
             }
@@ -1526,10 +1522,7 @@ impl BuiltInFunction {
                             );
 
                             match (result_a, result_b) {
-                                (Ok(val_a), Ok(val_b)) => val_a
-                                    .compare(&val_b, &heap.borrow())
-                                    .unwrap_or(None)
-                                    .unwrap_or(std::cmp::Ordering::Equal),
+                                (Ok(val_a), Ok(val_b)) => val_a.sort_cmp(&val_b, &heap.borrow()),
                                 _ => std::cmp::Ordering::Equal,
                             }
                         }
